@@ -59,6 +59,9 @@ type TOp struct {
 	Decoy      string // absent | other : what the method's *other* ID field holds
 	// FromEntry: the probe comes from the address, and under the ID, of a contact that is in the table
 	FromEntry bool
+	// AnnFam (get_peers probes of histories with a peer store): "" | v4 | v6 - before the probe, a peer of
+	// that family announces itself for the probed infohash
+	AnnFam string
 }
 
 type TableSc struct {
@@ -68,6 +71,8 @@ type TableSc struct {
 	Peers    []TPeer
 	Blocked  []int
 	Ops      []TOp
+	// PeerStore: the node has the bundled peer store (C09 histories only)
+	PeerStore bool
 	// Hook: "" | allow | veto - an OnQuery hook that lets every query through / keeps every query to
 	// itself (the sender of a kept query is still a sender: C06's admission rule does not depend on it)
 	Hook string
@@ -170,7 +175,7 @@ func genTable(t *rapid.T, bias string) TableSc {
 			TargetKind: rapid.SampledFrom([]string{"root", "entry", "near-entry", "near-entry", "bucket", "bucket", "random"}).Draw(t, "op.tkind"),
 			TargetTail: genBytesN(t, 20, "op.ttail"), TBucket: rapid.SampledFrom(append([]int{0, 1, 2, 4, 159}, hot...)).Draw(t, "op.tbucket"),
 			K: rapid.IntRange(0, 63).Draw(t, "op.k"), Want: genWant(t, "op.want"), SrcV6: rapid.Bool().Draw(t, "op.srcv6"),
-			Decoy: rapid.SampledFrom([]string{"absent", "other"}).Draw(t, "op.decoy"), RO: rapid.Bool().Draw(t, "op.ro"), FromEntry: uniformInt(t, 4, "op.fromentry") == 0}
+			Decoy: rapid.SampledFrom([]string{"absent", "other"}).Draw(t, "op.decoy"), RO: rapid.Bool().Draw(t, "op.ro"), FromEntry: uniformInt(t, 4, "op.fromentry") == 0, AnnFam: pick(t, "op.annfam", "", "", "v4", "v6")}
 		return op
 	}
 	nops := 10 + uniformInt(t, deep(t, 70), "nops")
@@ -222,6 +227,9 @@ func genTable(t *rapid.T, bias string) TableSc {
 			}
 		}
 		sc.Ops = append(sc.Ops, op)
+	}
+	if bias == "c09" {
+		sc.PeerStore = uniformInt(t, 3, "peerstore") == 0
 	}
 	if bias == "c06" {
 		sc.Hook = pick(t, "hook", "", "", "", "allow", "veto")
@@ -335,6 +343,8 @@ type tableMachine struct {
 	tseq   int
 	// PBlock: the reply a peer would have sent, kept back by the harness
 	heldReply func()
+	// extraEvs: further events a probe caused (an announcer's queries)
+	extraEvs []tev
 	// statistics for the non-triviality rules
 	fullBucketNewcomer, offeredIneligible, droppedEntry, ninthInsert bool
 	probesNontrivial                                                 bool
@@ -986,6 +996,42 @@ func (m *tableMachine) probe1(op TOp, oi int, pre dht.VerifTableSnapshot) (pev t
 	if len(populated) >= 2 && impure {
 		m.probesNontrivial = true
 	}
+	// with a peer store: somebody of one family announces itself for the probed infohash first
+	announced := false
+	if m.sc.PeerStore && op.Method == "get_peers" && op.AnnFam != "" && (op.AnnFam == "v4" || m.sc.Dual) {
+		var aip net.IP
+		if op.AnnFam == "v6" {
+			aip = net.ParseIP("2001:db9:9::").To16()
+			aip[15] = byte(1 + oi%200)
+		} else {
+			aip = net.IP{44, 9, byte(oi >> 8), byte(1 + oi%200)}
+			if m.sc.Dual {
+				aip = aip.To16()
+			}
+		}
+		asrc := &net.UDPAddr{IP: aip, Port: 3900 + oi%1000}
+		aid := [20]byte{0xea, byte(oi), 2}
+		m.tseq++
+		gt := []byte(fmt.Sprintf("ag%d", m.tseq))
+		outs, ok := m.sv.exchange(m.c, asrc, mkQuery(gt, "get_peers", mkArgs(aid, BKV{K: "info_hash", V: bs(target[:])})), true)
+		if !ok {
+			return pev, false
+		}
+		m.extraEvs = append(m.extraEvs, tev{kind: "query", addr: asrc.String(), ip: asrc.IP, id: aid, hasID: true})
+		if o, found := replyTo(outs, asrc, gt); found && o.Y == "r" {
+			if r, ok := o.R(); ok {
+				if tk, ok := r.Get("token"); ok && tk.Kind == 's' {
+					at := []byte(fmt.Sprintf("aa%d", m.tseq))
+					if _, ok := m.sv.exchange(m.c, asrc, mkQuery(at, "announce_peer", mkArgs(aid, BKV{K: "info_hash", V: bs(target[:])}, BKV{K: "port", V: bint(int64(4000 + oi%1000))}, BKV{K: "token", V: bstr(tk.S)})), true); !ok {
+						return pev, false
+					}
+					announced = true
+					m.c.Label("probe-after-announce-" + op.AnnFam)
+				}
+			}
+		}
+	}
+	_ = announced
 	preIdx := indexEntries(pre)
 	for rep := 0; rep < 4; rep++ {
 		m.tseq++
@@ -1060,6 +1106,11 @@ func (m *tableMachine) probe1(op TOp, oi int, pre dht.VerifTableSnapshot) (pev t
 			if !known || !want {
 				continue
 			}
+			if vals, ok := r.Get("values"); ok && vals.Kind == 'l' && len(vals.L) > 0 {
+				// a reply that carries peers need not carry contacts as well: only the soundness clauses apply
+				m.c.Label("probe-answered-with-values")
+				continue
+			}
 			f := fams[v6]
 			expect := f.total
 			if expect > 8 {
@@ -1100,7 +1151,7 @@ func (m *tableMachine) probe1(op TOp, oi int, pre dht.VerifTableSnapshot) (pev t
 func runTable(sc TableSc, c *kit.Case, clause string) *kit.Violation {
 	m := &tableMachine{sc: sc, c: c, clause: clause, root: arr20(sc.Root), script: map[string]TOp{}, answered: map[entryKey]bool{}, model: map[entryKey]*entryModel{}, modelValid: true}
 	m.ref = tableRef{root: m.root, security: sc.Security}
-	opts := SrvOpts{NodeID: m.root, Security: sc.Security, Hook: sc.Hook}
+	opts := SrvOpts{NodeID: m.root, Security: sc.Security, Hook: sc.Hook, PeerStore: sc.PeerStore}
 	c.Label("hook-" + sc.Hook)
 	if len(sc.Blocked) > 0 {
 		m.blocked = &blockSet{}
@@ -1359,6 +1410,8 @@ func runTable(sc TableSc, c *kit.Case, clause string) *kit.Violation {
 				return m.viol
 			}
 			evs = append(evs, pev)
+			evs = append(evs, m.extraEvs...)
+			m.extraEvs = nil
 		case "TM":
 			simnet.Go(m.sv.S.TableMaintainer)
 			what += " (one TableMaintainer pass)"
